@@ -39,7 +39,7 @@ RULE = (
 
 NUMS = {"xAOD::Jet": "pt", "xAOD::TrackParticle": "pt", "xAOD::Electron": "pt", "xAOD::Muon": "pt", "xAOD::TruthParticle": "pt", "xAOD::MissingET": "met",
         "xAOD::EventInfo": "runNumber", "reco::Track": "pt", "reco::Muon": "pt", "reco::Vertex": "z", "reco::GsfElectron": "pt", "pat::Muon": "pt", "pat::Electron": "pt",
-        "myns::K0": "s00"}
+        "myns::K0": "s00", "myns::K1": "s10"}
 
 bank_text = st.one_of(st.sampled_from(["AntiKt4", "muons", "b", "x1"]), st.text(alphabet="abcdefXYZ0123456789_", min_size=1, max_size=10))
 
@@ -62,8 +62,15 @@ def use_query(draw, schema: Schema, must_use=None, allow_missing=False):
         # a built-in collection first, the declared one after it (they may share headers but not libraries)
         picks = [colls[0], must_use]
         n = 2
-    if n >= 2 and draw(st.integers(0, 3)) == 0:
+    others = [c for c in colls if not c.builtin and c is not must_use]
+    if must_use is not None and others and draw(st.integers(0, 1)) == 0:
+        # two declared collections in one query, in either order
+        picks = [others[0], must_use] if draw(st.booleans()) else [must_use, others[0]]
+        n = 2
+    elif n >= 2 and draw(st.integers(0, 3)) == 0:
         picks[1] = picks[0]  # the same collection twice
+    if must_use is not None and must_use not in picks:
+        picks[0] = must_use
     uses = []
     for c in picks:
         b = draw(bank_text) if not draw(st.integers(0, 3)) == 0 or not uses else uses[-1][1]
@@ -192,6 +199,13 @@ def declared_schema(draw, backend):
     colls = [c for c in base.colls if c.accessor != name]
     new = Coll(name, cont, "myns::K0", headers, libs, singleton=singleton, elem_ptr=elem_ptr, builtin=False, banks=("decl1", "decl2"), declared_elem_ptr=declared_ptr)
     colls.append(new)
+    # a second declaration in the same query: another name, container, element type, header and library
+    if draw(st.sampled_from([True, False, True])):
+        classes["myns::K1"] = C("myns::K1", [M("s10", "num"), M("s11", "num", "int", declared=True)])
+        name2 = draw(st.sampled_from([n for n in ["Second", "OtherThings", "MyColl"] if n != name]))
+        ptr2 = None if backend == "atlas" else draw(st.sampled_from([None, True, False]))
+        colls.append(Coll(name2, draw(st.sampled_from(["myns::K1Container", "myns::K1Vec"])), "myns::K1", ("myns/K1Container.h",), ("K1Lib",) if backend == "atlas" else (),
+                          singleton=False, elem_ptr=True if backend == "atlas" else bool(ptr2), builtin=False, banks=("decl3",), declared_elem_ptr=ptr2))
     return Schema(backend, classes, colls, f"decl-{backend}", []), new
 
 
@@ -306,7 +320,8 @@ def worker(payload):
                     check_run(sch, model_dir, text, uses, evs, rep)
                     stats.case(jdump([backend, new.__dict__, text]), True, [f"backend={backend}", "kind=declared", "position=" + pos, "singleton" if new.singleton else "collection",
                                                                             "replaces-builtin" if new.accessor in [c.accessor for c in sch0.colls] else "new-name",
-                                                                            f"element_pointer={new.declared_elem_ptr}"],
+                                                                            f"element_pointer={new.declared_elem_ptr}",
+                                                                            "declared-collections-used=%d" % len({a for a, _ in uses if not sch.coll(a).builtin})],
                                {"backend": backend, "declaration": {k: v for k, v in new.__dict__.items() if k != "banks"}, "query": text[text.index("lambda"):][-200:]})
 
                 hyp_search(qbody, qcases(), max_examples=n_decl_q, seed=derive_seed(seed, new.accessor, new.container), stats=stats, deadline=deadline,
